@@ -170,6 +170,8 @@ def check(chk):
                        text="self.%s not reset on every path in %s" % (attr, c.name))
     chk.expect(n_ref >= 6, "C11: per-player references lost (%d)" % n_ref)
 
+    _deferred_writes(chk, repo)
+
     # ------------------------------------------------------------ FLOW-4
     n_f = 0
     for c in repo.subclasses(md, strict=False):
@@ -253,6 +255,86 @@ def _maybe_mutable_config(repo, cls, expr):
     return isinstance(ent, str) and ent.split("|")[0] in ("list", "dict", "set")
 
 
+def _deferred_writes(chk, repo):
+    """BARRIER-1: a coroutine that writes to the *current* player after awaiting (a write deferred past the event that
+    caused it) must keep the ball from ending while work is pending, otherwise the write lands in the next player:
+    the class blocks `ball_ending` on an asyncio.Event that is cleared before work is queued and set only when the
+    queue is empty.  BLOCK-1: a config player that keeps per-context state of its own (VariablePlayer.blocks) removes
+    every entry of a context when that context is cleared -- not just the newest."""
+    n = 0
+    for c in repo.all_classes("mpf/devices/"):
+        for m in c.methods.values():
+            if not m.is_async:
+                continue
+            writes = [x for x in ast.walk(m.node) if isinstance(x, (ast.Assign, ast.AugAssign)) and
+                      "game.player" in src(x.targets[0] if isinstance(x, ast.Assign) else x.target)]
+            awaits = [x for x in ast.walk(m.node) if isinstance(x, ast.Await)]
+            if not writes or not awaits:
+                continue
+            n += 1
+            chk.analysed(m)
+            # the barrier: an async ball_ending handler of this class awaiting an Event field
+            barrier = None
+            for m2 in c.methods.values():
+                for call in m2.calls():
+                    if call_attr(call) in ("add_async_handler", "add_handler") and call.args and const_value(call.args[0]) == "ball_ending" and len(call.args) > 1:
+                        hname = src(call.args[1]).split(".")[-1]
+                        h = c.methods.get(hname)
+                        if h is not None:
+                            for w in ast.walk(h.node):
+                                if isinstance(w, ast.Await) and isinstance(w.value, ast.Call) and call_attr(w.value) == "wait":
+                                    barrier = src(w.value.func.value)
+            chk.ob("BARRIER-1", "%s writes to the current player after awaiting, so its class holds back ball_ending while work is pending" % m.qualname,
+                   barrier is not None, m.where(), detail="no async ball_ending handler waiting on an Event of the class", construct=m.ident,
+                   text="deferred player write without barrier")
+            if barrier is None:
+                continue
+            queues = {src(x.value.func.value) for x in ast.walk(m.node) if isinstance(x, ast.Await) and isinstance(x.value, ast.Call) and call_attr(x.value) == "get"}
+            for m2 in c.methods.values():
+                cfg = m2.cfg()
+                for nset, cs in [(n_, cc) for n_, cc in cfg.calls_named("set") if src(cc.func.value) == barrier]:
+                    if m2.name == "__init__":
+                        continue
+                    g = cfg.guards_at(nset.id)
+                    ok = any(g.get("%s.empty()" % q) is True for q in queues)
+                    chk.ob("BARRIER-1", "the ball-end barrier of %s is released only when no work is left (queue empty)" % c.name, ok, m2.where(cs),
+                           detail="guards %s; queues %s" % (sorted(g.items()), sorted(queues)), construct=m2.ident, text="barrier released with work pending")
+                for nput, cp in [(n_, cc) for n_, cc in cfg.calls_named("put_nowait", "put") if src(cc.func.value) in queues]:
+                    clears = [x.id for x, cc in cfg.calls_named("clear") if src(cc.func.value) == barrier]
+                    ok = bool(clears) and any(cfg.dominates(x, nput.id) for x in clears)
+                    chk.ob("BARRIER-1", "%s closes the barrier before it queues work" % m2.qualname, ok, m2.where(cp), construct=m2.ident,
+                           text="work queued with the barrier open")
+    chk.ob("BARRIER-1", "coroutines writing to the current player after an await examined", n >= 1, "mpf/devices:1", detail="%d" % n, nontrivial=False)
+    vp = repo.cls("mpf/config_players/variable_player.py", "VariablePlayer")
+    cc = vp.methods.get("clear_context")
+    if cc is None:
+        chk.missing("BLOCK-1", "VariablePlayer clears its blocks when a context ends", vp.methods.get("play") or list(vp.methods.values())[0])
+        return
+    chk.analysed(cc)
+    # every block list is visited, and within it every entry is compared with the context
+    outer = [x for x in ast.walk(cc.node) if isinstance(x, ast.For) and "self.blocks" in src(x.iter)]
+    visits_entries = False
+    cond_ok = False
+    for o in outer:
+        bl = [t.id for t in ast.walk(o.target) if isinstance(t, ast.Name) and t.id != "_"]
+        for x in ast.walk(o):
+            it = None
+            if isinstance(x, ast.For) and x is not o:
+                it = x.iter
+            if isinstance(x, ast.comprehension):
+                it = x.iter
+            if it is not None and any(isinstance(y, ast.Name) and y.id in bl for y in ast.walk(it)):
+                visits_entries = True
+        for x in ast.walk(o):
+            if isinstance(x, ast.Compare) and len(x.ops) == 1 and isinstance(x.ops[0], (ast.Eq, ast.NotEq)) and \
+                    {src(x.left).split(".")[-1], src(x.comparators[0]).split(".")[-1]} == {"context"}:
+                cond_ok = not any(isinstance(y, ast.Subscript) for y in ast.walk(x))
+    chk.ob("BLOCK-1", "VariablePlayer.clear_context visits every block list", bool(outer), cc.where(), construct=cc.ident, text="block lists visited")
+    chk.ob("BLOCK-1", "VariablePlayer.clear_context looks at every entry of a block list (a stopping mode's block may lie under a newer one)",
+           visits_entries and cond_ok, cc.where(), detail="a block of the stopped context that is not the newest entry stays and keeps swallowing scores",
+           construct=cc.ident, text="only part of a block list examined")
+
+
 def battery():
     from sa.battery import M
     LBF = "mpf/devices/logic_blocks.py"
@@ -272,6 +354,10 @@ def battery():
         # twins
         M("twin: reset order", "mpf/devices/state_machine.py", "        self._state = None\n        self.player = None", "        self.player = None\n        self._state = None", None),
         M("twin: explicit else", PL, "        if name in self.vars:\n            prev_value = self.vars[name]\n        else:\n            new_entry = True", "        if name not in self.vars:\n            new_entry = True\n        else:\n            prev_value = self.vars[name]", None),
+        M("score queue opens the ball-end barrier after every entry", "mpf/devices/score_queue.py", "            if self._score_queue.empty():\n                self._score_queue_empty.set()", "            self._score_queue_empty.set()", "BARRIER-1"),
+        M("score queued with the barrier open", "mpf/devices/score_queue.py", "        self._score_queue_empty.clear()\n        self._score_queue.put_nowait(value)", "        self._score_queue.put_nowait(value)", "BARRIER-1"),
+        M("only the newest block of a context is removed", "mpf/config_players/variable_player.py", "        for _, block in self.blocks.items():  # Unused variable \"var\"\n            for entry, s in enumerate(block):\n                if s.context == context:\n                    del block[entry]", "        for block in self.blocks.values():\n            if block and block[-1].context == context:\n                block.pop()", "BLOCK-1"),
+        M("twin: blocks rebuilt by filtering", "mpf/config_players/variable_player.py", "        for _, block in self.blocks.items():  # Unused variable \"var\"\n            for entry, s in enumerate(block):\n                if s.context == context:\n                    del block[entry]", "        for var, block in self.blocks.items():\n            self.blocks[var] = [s for s in block if s.context != context]", None),
     ]
 
 
